@@ -895,8 +895,6 @@ def eval_dyad_reshape(a, b, backend):
                 b = np_backend.concatenate((b, b[:a_s - backend.array_size(b)]))
                 b_s = backend.array_size(b)
                 r = b.reshape(a_shape)
-                r = np_backend.asarray(["".join(x) for x in r]) if j else r
-                j = False
             elif a_s == b_s:
                 r = b.reshape(a_shape)
             else:
@@ -916,9 +914,9 @@ def eval_dyad_reshape(a, b, backend):
         else:
             r = np_backend.full((a,), b)
     if j:
-        if np_backend.isarray(r) and r.ndim > 1:
-            return np_backend.asarray(["".join(x) for x in r], dtype=object)
-        return "".join(r)
+        def _join_rows(x): # strings are the innermost dimension
+            return "".join(x) if x.ndim == 1 else numpy.asarray([_join_rows(y) for y in x], dtype=object)
+        return _join_rows(r)
     return r
 
 
